@@ -1,6 +1,8 @@
 //! C20 — braille highlighting and cursor routing are safe and side-effect free.
 use std::collections::BTreeMap;
 
+use serde_json::json;
+
 use crate::exec::*;
 use crate::pools;
 use crate::props::common::*;
@@ -22,7 +24,7 @@ struct Snap {
     speech: Res,
 }
 
-fn is_query(op: &Op) -> bool {
+pub fn is_query(op: &Op) -> bool {
     matches!(op, Op::Braille(_) | Op::BraillePos | Op::NodeFromPos(_))
 }
 
@@ -35,8 +37,14 @@ impl C20Checker {
         if self.names.is_empty() {
             self.names = pref_names(&s.ctx.base);
         }
+        // the outputs first: a braille or speech call re-reads preference files whose time stamp moved (values MathCAT wrote
+        // itself, e.g. NavMode after a navigation command, then fall back to the file's); the preference values are read
+        // after that, so that a pending re-read is not mistaken for an effect of the query
+        let nav = norm(&s.call(&Op::NavId));
+        let braille = norm(&s.call(&Op::Braille(IdRef::Empty)));
+        let speech = norm(&s.call(&Op::Speech));
         let prefs: BTreeMap<String, String> = s.read_prefs(&self.names.clone()).into_iter().collect();
-        Snap { prefs, nav: norm(&s.call(&Op::NavId)), braille: norm(&s.call(&Op::Braille(IdRef::Empty))), speech: norm(&s.call(&Op::Speech)) }
+        Snap { prefs, nav, braille, speech }
     }
 }
 
@@ -234,6 +242,28 @@ impl Checker for C20Checker {
             self.ever_faulted = true;
         }
     }
+
+    /// "final_observe": everything a later caller can see (all preference values, the navigation position, braille,
+    /// speech, overview) goes into the observed results of the run; exec::execute_checked compares them with the SAME
+    /// history in which every braille query is replaced by a call that does nothing (get_version)
+    fn on_check(&mut self, s: &mut Sess, kind: &str, _args: &serde_json::Value) {
+        if kind != "final_observe" || s.rules_dir.is_none() {
+            return;
+        }
+        if self.names.is_empty() {
+            self.names = pref_names(&s.ctx.base);
+        }
+        // outputs first, preference values last: the first output call re-reads preference files whose time stamp moved
+        // (see snap()); in the control run that call may be the first one since the touch
+        for op in [Op::NavId, Op::Braille(IdRef::Empty), Op::Speech, Op::Overview] {
+            let r = norm(&s.call(&op));
+            s.out.observed.push(format!("final_observe {}: {}", op.name(), match &r { Res::Ok(v) => format!("Ok {}", v), Res::Err(_) => "Err".to_string(), Res::Panic(m, _) => format!("Panic {}", m) }));
+        }
+        let prefs = s.read_prefs(&self.names.clone());
+        let prefs: Vec<String> = prefs.iter().map(|(n, v)| format!("{}={:?}", n, v)).collect();
+        s.out.observed.push(format!("final_observe preferences: {}", prefs.join(" ")));
+        s.probe("final_state_observed");
+    }
 }
 
 // ---------------------------------------------------------------------------------------------------
@@ -314,6 +344,17 @@ pub fn random_trace(seed: u64) -> Trace {
                 s.push(Step::Call(Op::NodeFromPos(p)));
             }
         }
+    }
+    if !inject {
+        // the user (or an installer) touches the preference files now and then: every session re-reads them at its next
+        // call, and what it then holds must not depend on the queries made before
+        let n_touch = rng.below(3);
+        for _ in 0..n_touch {
+            let at = rng.range(5.min(s.len()), s.len());
+            s.insert(at, Step::Env(EnvEvent::Touch { path: format!("{}/prefs.yaml", MOUNT_A) }));
+            s.insert(at, Step::Env(EnvEvent::Clock { ms: 1500 }));
+        }
+        s.push(Step::Check { kind: "final_observe".into(), args: json!({}) });
     }
     t.sessions = vec![s];
     t
@@ -461,6 +502,38 @@ pub fn directed(all: bool) -> Vec<Trace> {
             t.injections.push(Injection { session: 0, step: 7, sub: 0, nth, kind: InjectKind::ReadEio, sticky: false });
             t.sessions = vec![s];
             v.push(t);
+        }
+    }
+    // delayed effects: a highlight style (or another braille preference) set through the API, queries of every kind, then
+    // the preference files get a newer time stamp (nothing in them changes) and are re-read by the next call; what the
+    // session holds and says afterwards must be what the same history WITHOUT the queries leaves (run-level oracle in
+    // exec::execute_checked)
+    for code in ["Nemeth", "UEB", "LaTeX"] {
+        for style in ["Off", "FirstChar", "All", "EndPoints"] {
+            for with_user_dir in [true, false] {
+                let mut t = Trace::new("C20", "C20");
+                t.origin = format!("directed queries-then-prefs-reread {} {} user_dir={}", code, style, with_user_dir);
+                t.world.user_config_dir = with_user_dir;
+                let s = vec![
+                    Step::Call(Op::SetRulesDir(MOUNT_A.into())),
+                    Step::Call(Op::SetPref("BrailleCode".into(), code.to_string())),
+                    Step::Call(Op::SetPref("BrailleNavHighlight".into(), style.to_string())),
+                    Step::Call(Op::SetMathml(ExprRef::Pool(8))),
+                    Step::Call(Op::Cmd("ZoomIn".into())),
+                    Step::Call(Op::Braille(IdRef::Nth(2))),
+                    Step::Call(Op::BraillePos),
+                    Step::Call(Op::NodeFromPos(PosRef::Abs(2))),
+                    Step::Call(Op::NodeFromPos(PosRef::LenPlus(1))),
+                    Step::Env(EnvEvent::Clock { ms: 2000 }),
+                    Step::Env(EnvEvent::Touch { path: format!("{}/prefs.yaml", MOUNT_A) }),
+                    Step::Call(Op::Speech),
+                    Step::Call(Op::SetMathml(ExprRef::Pool(10))),
+                    Step::Call(Op::Cmd("MoveNext".into())),
+                    Step::Check { kind: "final_observe".into(), args: json!({}) },
+                ];
+                t.sessions = vec![s];
+                v.push(t);
+            }
         }
     }
     v
